@@ -33,17 +33,26 @@ import json
 import logging
 import multiprocessing
 import os
+import pickle
 import random
 import re
 import shutil
 import signal
 import time
 from contextlib import contextmanager
-from concurrent.futures import ThreadPoolExecutor
 
 from ..common import Run, digest
 from .. import tlc
 from ..server import World
+
+# every new connection makes pysasl rescan the installed packages' entry points
+# (12 ms); the installed packages do not change while the check runs
+import functools  # noqa: E402
+import pysasl as _pysasl  # noqa: E402
+
+if not hasattr(_pysasl.entry_points, 'cache_info'):
+    _ep = _pysasl.entry_points
+    _pysasl.entry_points = functools.lru_cache(maxsize=None)(lambda **kw: tuple(_ep(**kw)))
 
 _plog = logging.getLogger('pymap')
 _plog.addHandler(logging.NullHandler())
@@ -669,6 +678,22 @@ class Exec:
         return {'owner': None if own is None else USER_OF.get(own, own.decode('latin-1')),
                 'sasl': b'SASL' in caps}
 
+    def glass_owner(self, c):
+        """Who the server-side connection object thinks it serves:
+        'none' | 'u1' | 'u2' | other name | None (object not found)."""
+        task = self.w.conns[c].task
+        coro = task.get_coro() if task is not None and not task.done() else None
+        while coro is not None:
+            fr = getattr(coro, 'cr_frame', None)
+            slf = fr.f_locals.get('self') if fr is not None else None
+            if type(slf).__name__ == 'ManageSieveConnection':
+                st = slf._state
+                if st is None:
+                    return 'none'
+                return USER_OF.get(st.owner, st.owner.decode('latin-1'))
+            coro = getattr(coro, 'cr_await', None)
+        return None
+
     def glass(self):
         out = {}
         for u, (user, _pw) in USERS.items():
@@ -740,8 +765,12 @@ class Exec:
             want = [self.names[n] for n, v in st['post']['store'][u].items()
                     if v != 'none']
             obs['stores'][u] = self.probe_user(u, want)
-        which = MCONNS if cmd in ('Auth', 'AuthJunk', 'Unauth', 'Logout', 'Drop',
-                                  'StartTLS') else (c,)
+        # auth state: on the wire (CAPABILITY -> OWNER) after every command that
+        # is about authentication or connection state, in the server's
+        # connection objects after every command
+        obs['gowners'] = {k: self.glass_owner(k) for k in MCONNS}
+        which = MCONNS if cmd in ('Auth', 'AuthJunk', 'Unauth', 'Logout', 'Drop', 'StartTLS',
+                                  'Unknown') else ((c,) if obs['gowners'][c] is None else ())
         obs['owners'] = {k: self.probe_owner(k) for k in which}
         obs['glass'] = self.glass()
         obs['mark'] = mark
@@ -881,12 +910,15 @@ class Exec:
                                    f'after {label} (model auth={pre}) the scripts of {u} '
                                    f'differ from the model: ' + '; '.join(diffs)))
         # 5. who the connections are authenticated as
+        seen = []
         for k, ob in obs['owners'].items():
             if 'error' in ob:
                 out.append(Finding('drift', f'Probe:Capability:{cmd}', f'after {label}: {ob["error"]}'))
                 continue
+            seen.append((k, ob['owner'] or 'none'))
+        seen += [(k, g) for k, g in obs['gowners'].items() if g is not None and k not in obs['owners']]
+        for k, got in seen:
             want = post['auth'][k]
-            got = ob['owner'] or 'none'
             if got == want:
                 continue
             if want == 'none':
@@ -1038,6 +1070,55 @@ def steps_of_behaviour(beh) -> list:
     return out
 
 
+def sim_steps(cfg_text: str, num: int, depth: int, seed: int):
+    """-> ([steps of behaviour 1, ...], TLCResult) with the calibrated cfg"""
+    d = tlc._scratch('c19cfg')
+    try:
+        cfg_path = os.path.join(d, 'Sieve_sim_cal.cfg')
+        with open(cfg_path, 'w') as f:
+            f.write(cfg_text)
+        behs, res = simulate(cfg_path, num, depth, seed)
+    finally:
+        shutil.rmtree(d, ignore_errors=True)
+    res.output = res.output[-4000:]
+    return [steps_of_behaviour(b) for b in behs], res
+
+
+class Bg:
+    """Run fn(*a, **kw) in a forked child (TLC runs next to the replay); no
+    threads, so that the replay pool can fork safely."""
+
+    def __init__(self, fn, *a, **kw):
+        r, w = os.pipe()
+        pid = os.fork()
+        if pid == 0:
+            code = 1
+            try:
+                os.close(r)
+                try:
+                    out = (True, fn(*a, **kw))
+                except BaseException as exc:      # reported in the parent
+                    out = (False, repr(exc))
+                with os.fdopen(w, 'wb') as f:
+                    pickle.dump(out, f)
+                code = 0
+            finally:
+                os._exit(code)
+        os.close(w)
+        self.pid, self.r = pid, r
+
+    def result(self):
+        with os.fdopen(self.r, 'rb') as f:
+            data = f.read()
+        os.waitpid(self.pid, 0)
+        if not data:
+            raise tlc.TLCError('background job died')
+        ok, val = pickle.loads(data)
+        if not ok:
+            raise tlc.TLCError(val)
+        return val
+
+
 # --------------------------------------------------------------------------
 # parallel replay (fork: the jobs are inherited, only results are pickled)
 
@@ -1182,34 +1263,26 @@ def main(tier: str) -> int:
     ]
     quick = tier == 'quick'
 
-    # 1. model check + state graph (in parallel)
-    def mc():
-        return tlc.run_tlc('Sieve.tla', 'Sieve_small.cfg', workers=8, timeout=1500)
+    # 1. model check (in the background) + state graph
+    def mc(cfg, workers):
+        r = tlc.run_tlc('Sieve.tla', cfg, workers=workers, timeout=3000)
+        r.output = r.output[-4000:]
+        return r
 
-    def dump():
-        return tlc.dump_graph('Sieve.tla', 'Sieve_small_graph.cfg', workers=4)
-
+    bg_mc = [('Sieve_small.cfg', Bg(mc, 'Sieve_small.cfg', 6))]
+    if not quick:
+        bg_mc.append(('Sieve_medium.cfg', Bg(mc, 'Sieve_medium.cfg', 6)))
+    graph_cfg = 'Sieve_small_graph.cfg' if quick else 'Sieve_medium_graph.cfg'
     try:
-        with ThreadPoolExecutor(2) as tp:
-            f1, f2 = tp.submit(mc), tp.submit(dump)
-            res_mc = f1.result()
-            graph, res_g = f2.result()
+        graph, res_g = tlc.dump_graph('Sieve.tla', graph_cfg, workers=4)
     except tlc.TLCError as exc:
         run.machinery(str(exc))
         return run.finish()
-    run.add_model(res_mc, 'Sieve_small.cfg')
-    run.add_model(res_g, 'Sieve_small_graph.cfg (VIEW base)')
-    for res, nm in ((res_mc, 'Sieve_small.cfg'), (res_g, 'Sieve_small_graph.cfg')):
-        if not res.ok:
-            run.machinery(f'model check of {nm} failed: {res.violated or res.error}')
-            return run.finish()
-    if not quick:
-        res_m = tlc.run_tlc('Sieve.tla', 'Sieve_medium.cfg', workers=16, timeout=3000)
-        run.add_model(res_m, 'Sieve_medium.cfg')
-        if not res_m.ok:
-            run.machinery(f'model check of Sieve_medium.cfg failed: {res_m.violated or res_m.error}')
-            return run.finish()
-    run.notes['t_tlc_s'] = round(time.time() - t00, 1)
+    run.add_model(res_g, graph_cfg + ' (VIEW base)')
+    if not res_g.ok:
+        run.machinery(f'model check of {graph_cfg} failed: {res_g.violated or res_g.error}')
+        return run.finish()
+    run.notes['t_dump_s'] = round(time.time() - t00, 1)
 
     # 2. which alternatives does the server take; prune the others
     try:
@@ -1256,6 +1329,14 @@ def main(tier: str) -> int:
     stats = {'steps': 0, 'cmds': {}, 'refused_unauth': 0, 'mut_ok': 0, 'switches': [],
              'drift': {}}
 
+    # simulation of the full scope with the measured latitude: start TLC now
+    num, depth, chunks = (160, 60, 1) if quick else (4000, 100, 8)
+    cfg = open(os.path.join(tlc.SPEC_DIR, 'Sieve_sim.cfg')).read()
+    lat = ', '.join(f'"{x}"' for x in sorted({taken['authz'], taken['putbad']}))
+    cfg = re.sub(r'Latitude = \{[^}]*\}', 'Latitude = {' + lat + '}', cfg)
+    bg_sim = [Bg(sim_steps, cfg, num // chunks, depth, run.seed * 100 + 1 + k)
+              for k in range(chunks)]
+
     # 3. replay the edge cover
     jobs, metas = [], []
     for i, (init, path) in enumerate(paths):
@@ -1286,43 +1367,46 @@ def main(tier: str) -> int:
         if 'crash' not in r:
             run.sample({'stage': 'graph', 'fams': r['fams'], 'trace': r['trace'][:40]})
 
-    # 4. simulation of the full scope
-    num, depth = (160, 60) if quick else (4000, 100)
-    sim_cfg = os.path.join(tlc.SPEC_DIR, 'Sieve_sim.cfg')
-    d = tlc._scratch('c19cfg')
+    # 4. simulation of the full scope (TLC ran next to the graph replay)
     try:
-        cfg = open(sim_cfg).read()
-        lat = ', '.join(f'"{x}"' for x in sorted({taken['authz'], taken['putbad']}))
-        cfg = re.sub(r'Latitude = \{[^}]*\}', 'Latitude = {' + lat + '}', cfg)
-        cfg_path = os.path.join(d, 'Sieve_sim_cal.cfg')
-        with open(cfg_path, 'w') as f:
-            f.write(cfg)
-        behs, res_s = simulate(cfg_path, num, depth, run.seed + 1)
+        for nm, bg in bg_mc:
+            res_mc = bg.result()
+            run.add_model(res_mc, nm)
+            if not res_mc.ok:
+                run.machinery(f'model check of {nm} failed: {res_mc.violated or res_mc.error}')
+                return run.finish()
+        sims, res_s, nbeh = [], None, 0
+        for bg in bg_sim:
+            st_lists, r1 = bg.result()
+            sims.extend(st_lists)
+            nbeh += len(st_lists)
+            if res_s is None:
+                res_s = r1
+            else:
+                res_s.generated += r1.generated
+                res_s.wall_s = max(res_s.wall_s, r1.wall_s)
+                res_s.ok = res_s.ok and r1.ok
+                res_s.violated += r1.violated
+                res_s.error = res_s.error or r1.error
     except tlc.TLCError as exc:
         run.machinery(str(exc))
         return run.finish()
-    finally:
-        shutil.rmtree(d, ignore_errors=True)
     run.add_model(res_s, f'Sieve_sim.cfg -simulate num={num} depth={depth}')
-    if not res_s.ok or len(behs) < num:
-        run.machinery(f'simulation failed ({len(behs)}/{num} behaviours): '
+    if not res_s.ok or nbeh < num:
+        run.machinery(f'simulation failed ({nbeh}/{num} behaviours): '
                       f'{res_s.violated or res_s.error}')
         return run.finish()
-    run.notes['t_sim_tlc_s'] = round(time.time() - t00, 1)
+    run.notes['t_tlc_joined_s'] = round(time.time() - t00, 1)
     jobs, metas = [], []
-    try:
-        for i, beh in enumerate(behs):
-            job = (steps_of_behaviour(beh), run.seed * 1000003 + 500000 + i, None, None, 'mixed')
-            jobs.append(job)
-            metas.append({'stage': 'simulate', 'index': i, '_job': job})
-    except tlc.TLCError as exc:
-        run.machinery(str(exc))
-        return run.finish()
+    for i, steps in enumerate(sims):
+        job = (steps, run.seed * 1000003 + 500000 + i, None, None, 'mixed')
+        jobs.append(job)
+        metas.append({'stage': 'simulate', 'index': i, '_job': job})
     before = stats['steps']
     results = run_jobs(jobs)
     for r, meta in zip(results, metas):
         _absorb(run, r, meta, stats)
-    run.notes['simulate'] = {'behaviours': len(behs), 'depth': depth,
+    run.notes['simulate'] = {'behaviours': nbeh, 'depth': depth,
                              'steps_replayed': stats['steps'] - before}
     if results and 'crash' not in results[-1]:
         run.sample({'stage': 'simulate', 'fams': results[-1]['fams'],
